@@ -741,7 +741,7 @@ def prep_case_lit(c):
 # ---------------------------------------------------------------- shared correspondence runs
 def corr_single(ctx, res, stats):
     """consistent_sampling alone: exhaustive small domain + random stream."""
-    nmax = ctx.n(4, 5)
+    nmax = ctx.n(5, 5)
     cases = exhaustive_cases(ctx.rng, nmax, all_orders_upto=ctx.n(3, 4), cont_all=not ctx.quick, stats=stats)
     cases += random_cs_cases(ctx.rng, ctx.n(250, 4000), stats=stats)
     cr = C.run_corr(ctx.pid, "cs", IMPORTS, "cs_case", cases, cs_case_lit, "agree_cs", shard=120, show="show_cs")
